@@ -45,25 +45,28 @@ CHECK = {'pkgs': ['core/validatorapi', 'core/parsigex'],
           'SEQUENCES - alphabet per endpoint / duty type: both valid submissions and the targeted invalid ones of the single-call list (quick: '
           'the core families other share, other share valid for itself, other validator same share, filed under the other validator, one other '
           'domain, previous fork, other message, zero signature, outsider / first slot beyond the window; one version per endpoint or duty type '
-          'plus pre-electra attestations, unversioned aggregates, full and blinded proposals: 12 VC units x 9-11 and 14 peer units x 9-11 '
-          'operations; thorough: VC every targeted submission of those units plus the core families of all other versions, peer one '
-          'representative of every targeted family (21) for all 29 units). Every ordered pair of the alphabet. Replays after a valid A: to every '
+          'plus pre-electra attestations, unversioned aggregates, full and blinded proposals: 133 operations over 13 VC units = 17689 ordered '
+          'pairs, 151 operations over 14 peer units = 22801 ordered pairs; thorough: VC every targeted submission of those units plus '
+          '{valid, other share, previous fork, zero signature} of every other version: 470 operations over 38 units = 220900 pairs; peer one '
+          'representative of every targeted family incl. two-entry and mixed sets for those units plus the same four of every other '
+          'version: 369 operations over 35 units = 136161 pairs). Every ordered pair of the alphabet. Replays after a valid A: to every '
           'endpoint / duty type Y the object of Y for the same validator carrying A\'s signature and, where Y\'s type allows, A\'s message root '
           '(sync committee message: block root := root(A); randao reveal for epoch n and beacon committee selection for slot n when root(A) is '
           'the root of the integer n - on the VC path the duty definitions then also know a proposer duty in slot 16n); peer path also A\'s raw '
           'bytes under every other duty type, A\'s entry filed under the other validator and under share index 2, 3, 4; VC path A\'s object and '
           'signature identifying the other validator where the root does not bind it (attestation, sync message, both selections, randao); '
           'sync committee message at a slot of the previous fork, of the next fork and at another slot of the same fork (valid: must be '
-          'admitted); A itself again (must be admitted again). Thorough triples: all ordered triples over {valid, other share, zero '
+          'admitted); A itself again (must be admitted again); the share index of a VC submission is the node\'s own and not part of the '
+          'request (quick 165 VC + 445 peer, thorough 1420 VC + 2363 peer replay pairs). Thorough triples: all ordered triples over {valid, other share, zero '
           'signature} x 6 units, and (a, b, replay of the latest valid of a, b). FAULTS - per unit (quick: as for sequences; thorough: all '
           'versions) x alphabet (VC quick core families, thorough all targeted; peer quick one representative per family incl. two-entry and '
           'mixed sets, thorough all targeted) x every fault script; under a fault whatever fails the independent verification must still be '
           'rejected with an error and no subscriber call, a valid submission may be delivered (re-verified) or refused. BOUNDARIES - duty '
           'slot: for k in 0..63 2^k-1, 2^k, 2^k+1, 2^k+currentSlot; floor(MaxInt64/12e9) and floor(MaxUint64/12e9) -1,+0,+1,+currentSlot; '
-          '2^63-2..2^63+2; 2^64-1-d for d in 0..33; currentSlot+-1 and the window edge +-1 (278 values) x duty type -1..15 against the '
+          '2^63-2..2^63+2; 2^64-1-d for d in 0..33; currentSlot+-1 and the window edge +-1 (303 values) x duty type -1..15 against the '
           'gater func, and x {prepare_aggregator, sync_message, prepare_sync_contribution with own slot = duty slot and signed for the fork '
           'of that slot, attester} through handle: outside epoch(slot) <= currentEpoch+2 (math/big) => error, no delivery. Share index: 0, '
-          'int32 min/max, +-(2^k-1), +-2^k, +-(2^k+1), 2^k+1, 2^k+4 for k in 0..31 on the valid entry of every sequence unit',
+          'int32 min/max, +-(2^k-1), +-2^k, +-(2^k+1), +-2^k+1, 2^k+4 for k in 0..31 (211 values) on the valid entry of every sequence unit',
  'trusted': 'herumi/tbls Sign/Verify, go-eth2-client hash tree roots, core\'s wire codec (ParSignedDataSetTo/FromProto) and the beaconmock fork '
             'schedule/genesis are the judge\'s inputs; signing root/domain/epoch per object type, domain-type constants, fork selection, '
             'validator identification and the gater window are re-implemented in the harness and do not use core/eth2signeddata.go, '
